@@ -347,8 +347,8 @@ theorem periodic_fuel_irrelevant (ops : List (Op α)) (f f' : Nat)
     run f (St.empty : St α) ops = run f' (St.empty : St α) ops :=
   (periodic_refines ops f h).trans (periodic_refines ops f' h').symm
 
-/-- **C03.6f (finite and periodic sources: enough fuel exists)** the condition under which Python
-itself returns, stated on the list model alone (`SpecLive`, decidable: `spec_live_check`): the list
+/-- **C03.6f (finite and periodic sources: enough fuel exists)** a sufficient condition for every
+call to return, stated on the list model alone (`SpecLive`, decidable: `spec_live_check`): the list
 model never answers "never returns" (`list()` / `take(inf)` of an endless sequence) and no `filter` is
 applied to an endless sequence whose whole period it rejects.  Then, for every such history of any
 length over finite and periodic sources, with enough fuel the model terminates at every step and the
